@@ -489,11 +489,11 @@ def check_C15(c):
     rng = c.rng
     reqs, meta = [], []
     N = 600 if c.quick() else 12000
-    kinds = ["ctxcall", "ctxbare", "global", "prefix", "infix", "postfix"]
+    kinds = ["ctxcall", "ctxbare", "global", "prefix", "infix", "postfix", "setter"]
     for it in range(N):
         # a program with one handler of each kind; fault injected in one of them, Err or panic
-        fk = kinds[it % 6]
-        kind_ = "err" if (it // 6) % 2 == 0 else "panic"
+        fk = kinds[it % 7]
+        kind_ = "err" if (it // 7) % 2 == 0 else "panic"
         def sc(tag, faulty, ok):
             return ["log", hx(tag), [kind_] if faulty else ok]
         pre = [
@@ -501,11 +501,13 @@ def check_C15(c):
             "REG\tprefix\t%s\t0\tcalc\tleft\t%s" % (hx("pp"), sexp_str(sc("pp", fk == "prefix", ["arg", "0"]))),
             "REG\tinfix\t%s\t105\tcalc\tleft\t%s" % (hx("ii"), sexp_str(sc("ii", fk == "infix", ["arg", "0"]))),
             "REG\tpostfix\t%s\t0\tcalc\tleft\t%s" % (hx("qq"), sexp_str(sc("qq", fk == "postfix", ["arg", "0"]))),
+            # an assignment-type (SETTER) infix operator: its handler computes the value stored under the left name
+            "REG\tinfix\t%s\t25\tsetter\tright\t%s" % (hx("ss"), sexp_str(sc("ss", fk == "setter", ["arg", "1"]))),
         ]
         binds = [("fc", "f", sc("fc", fk == "ctxcall", ["const", n(1)])), ("fb", "f", sc("fb", fk == "ctxbare", ["const", n(2)])), ("v", "v", n(9))]
         order = rng.below(3)
-        prog = ["w = 1; [fc(), fb, gg(), pp 4, 5 ii 6, 7 qq]; w = 2", "w = 1; x = fb + fc() ; y = (pp gg()) ii (8 qq) ; w = 2",
-                "w = 1; {fc(): fb, gg(): pp 1}; z = 2 ii 3 qq ; w = 2"][order]
+        prog = ["w = 1; [fc(), fb, gg(), pp 4, 5 ii 6, 7 qq]; u ss 3; w = 2", "w = 1; x = fb + fc() ; y = (pp gg()) ii (8 qq) ; u ss y ; w = 2",
+                "w = 1; {fc(): fb, gg(): pp 1}; z = 2 ii 3 qq ; u ss (z ss 4) ; w = 2"][order]
         block = pre + [ctx_line("c", binds), ctx_line("d", [("v", "v", n(1))]), exec_line("c", prog),
                        "GETVAR\tc\t" + hx("v"), "GETVAR\tc\t" + hx("w"), exec_line("c", "v + 1"), exec_line("d", "v + gg()" if fk != "global" else "v + 1"),
                        exec_line("c", "fc() + fb" if fk not in ("ctxcall", "ctxbare") else "v")]
@@ -522,7 +524,7 @@ def check_C15(c):
         ok = oc[0] == want and fol[0] == "OK (n 0 9 0)" and fol[1] == "OK (n 0 1 0)" and all("\tOK " in x for x in fol[2:5])
         # nothing after the failing handler ran: the log ends with the faulty tag
         logf = faulted.split("\t")[3] if len(faulted.split("\t")) > 3 else ""
-        tag = {"ctxcall": "fc", "ctxbare": "fb", "global": "gg", "prefix": "pp", "infix": "ii", "postfix": "qq"}[fk]
+        tag = {"ctxcall": "fc", "ctxbare": "fb", "global": "gg", "prefix": "pp", "infix": "ii", "postfix": "qq", "setter": "ss"}[fk]
         last = sexp_parse(logf)[-1][0] if logf not in ("", "()") and sexp_parse(logf) else None
         if last != hx(tag):
             ok = False
@@ -530,7 +532,7 @@ def check_C15(c):
             c.violation("implementation-vs-property", "a failing/panicking %s handler was not contained (%s)" % (fk, kind_),
                         {"requests": reqs[off: base + 6], "implementation": impl[off: base + 6], "input_text": prog})
     return c.finish(trusted=TB_COMMON + ["std::sync::Mutex poisoning semantics as documented"],
-                    rule="programs invoking six handler kinds (context function by call / by bare name, global function, prefix, infix, postfix operator); Err and panic injected into each kind in turn; follow-ups: get_variable and a second exec on the same context, exec on another context; oracle: outcome Err/unwind, call log ends at the faulty handler, follow-ups succeed with the values of the stopped evaluation")
+                    rule="programs invoking seven handler kinds (context function by call / by bare name, global function, prefix, infix, postfix operator, assignment-type infix operator); Err and panic injected into each kind in turn; follow-ups: get_variable and a second exec on the same context, exec on another context; oracle: outcome Err/unwind, call log ends at the faulty handler, follow-ups succeed with the values of the stopped evaluation")
 
 
 # =====================================================================================
@@ -544,7 +546,7 @@ def check_C14(c):
                ("regpostfix", ["reg", "postfix", hx("newq"), "0", "calc", "left", ["arg", "0"]]),
                ("lockctx", ["lockctx"]),
                ("nested2", ["exec", hx("g2() + 1")]), ("nested3", ["exec", hx("g3()")])]
-    kinds = ["ctxcall", "ctxbare", "global", "prefix", "infix", "postfix"]
+    kinds = ["ctxcall", "ctxbare", "global", "prefix", "infix", "postfix", "setter"]
     reqs, meta = [], []
     for kind_ in kinds:
         for aname, act in actions:
@@ -567,6 +569,9 @@ def check_C14(c):
             elif kind_ == "infix":
                 pre.append("REG\tinfix\t%s\t105\tcalc\tleft\t%s" % (hx("hi"), sexp_str(script)))
                 progs = ["1 hi 2", "x = a hi 2", "1 hi 2 hi 3"]
+            elif kind_ == "setter":
+                pre.append("REG\tinfix\t%s\t25\tsetter\tright\t%s" % (hx("hs"), sexp_str(script)))
+                progs = ["a hs 2", "x = 1; x hs a; x", "a hs 2; a hs 3; a"]
             else:
                 pre.append("REG\tpostfix\t%s\t0\tcalc\tleft\t%s" % (hx("hq"), sexp_str(script)))
                 progs = ["1 hq", "x = a hq", "[1 hq , 2 hq]"]
@@ -729,6 +734,35 @@ def check_C09(c):
         if not ok:
             c.violation("implementation-vs-property", "decimal arithmetic is not exact", {"requests": reqs2[2 * i:2 * i + 2], "expected": "ERR" if exp == S.ERR else sexp_str(exp), "implementation": impl2[2 * i + 1]})
     c.extra["pairs_checked_against_rational_oracle"] = checked
+    # scale of + - * results (observable: mantissa and scale of the returned number): decimal arithmetic keeps the
+    # operands' places — max of the scales for + and -, their sum for * — whenever that fits 28 places and 96 bits
+    scale_checked = 0
+    for i, m in enumerate(meta):
+        op = m[1].rstrip("=") if m[1] in ("+=", "-=", "*=") else m[1]
+        if op not in ("+", "-", "*"):
+            continue
+        a_, b_ = m[2], m[3]
+        sa, sb = int(a_[3]), int(b_[3])
+        na = (-1 if a_[1] == "1" else 1) * int(a_[2]); nb = (-1 if b_[1] == "1" else 1) * int(b_[2])
+        if op == "*":
+            sc, num = sa + sb, na * nb
+        else:
+            sc = max(sa, sb)
+            xa, xb = na * 10 ** (sc - sa), nb * 10 ** (sc - sb)
+            num = xa + xb if op == "+" else xa - xb
+        if sc > 28 or abs(num) >= 2 ** 96 or na == 0 or nb == 0:
+            continue   # (a zero operand: the library returns the other operand / plain 0 — no places to keep)
+        if op != "*" and (abs(xa) >= 2 ** 96 or abs(xb) >= 2 ** 96):
+            continue
+        f1 = impl2[2 * i + 1].split("\t")
+        if len(f1) < 2 or not f1[1].startswith("OK (n "):
+            continue   # value disagreements are reported above
+        raw = sexp_parse(f1[1][3:])
+        scale_checked += 1
+        if int(raw[2]) != abs(num) or int(raw[3]) != sc:
+            c.violation("implementation-vs-property", "decimal arithmetic does not keep the operands' places (mantissa/scale of the result)",
+                        {"requests": reqs2[2 * i:2 * i + 2], "expected": "(n %d %d %d)" % (1 if num < 0 else 0, abs(num), sc), "implementation": impl2[2 * i + 1]})
+    c.extra["results_checked_for_scale"] = scale_checked
     # classic binary-float traps through the text path
     traps = [("0.1 + 0.2 == 0.3", "(b 1)"), ("1.10 == 1.1", "(b 1)"), ("0.3 - 0.1 == 0.2", "(b 1)"), ("1.0 == 1", "(b 1)"), ("0.1 * 3 == 0.3", "(b 1)"),
              ("1.10", "(n 0 110 2)"), ("0.1 + 0.2", "(n 0 3 1)"), ("1.5 * 2 == 3", "(b 1)"), ("2.50 < 2.5", "(b 0)"), ("2.50 <= 2.5", "(b 1)"),
@@ -928,6 +962,18 @@ def check_C18(c):
             cfg[(k, nm)] = tag
             pre.append("DESC\t%s\t%s\t%s" % (k, hx(nm) if nm is not None else "-", tag))
         asts = fixed + [ag.program() for _ in range(6 if c.quick() else 20)]
+        if ci < 3:
+            # trees as tall as the parser can return them (MAX_DEPTH = 128) and just below: every node is rendered
+            def tower(wrap, leaf, k):
+                t = leaf
+                for _ in range(k):
+                    t = wrap(t)
+                return t
+            for k in (125, 126, 127):
+                asts.append(tower(lambda t: G.lst([t]), G.num(1), k))
+                asts.append(tower(lambda t: G.un("!", t), G.ref("x"), k))
+                asts.append(G.call("f", [tower(lambda t: G.lst([t]), G.ref("y"), k - 1)]))
+                asts.append(tower(lambda t: G.mp([(G.num(1), t)]), B, k))
         reqs = pre + ["DESCRAST\t" + sexp_str(t) for t in asts]
         impl, model = both(reqs)
         total += len(reqs)
@@ -941,6 +987,21 @@ def check_C18(c):
             if a != exp:
                 c.violation("implementation-vs-property", "describe() does not use exactly the registered descriptor / default",
                             {"requests": pre + [r], "expected": py_describe(t, cfg), "implementation": unhx(a.split("\t")[1]) if a.startswith("OK\t") else a})
+    # a second thread describes before and after the registrations made on the first: both threads see them
+    pre2 = ["DESC\t%s\t%s\t%s" % (k, hx(nm) if nm is not None else "-", "%s_%s" % (k, nm.encode().hex()) if nm is not None else k)
+            for k in kinds for nm in (named.get(k) or [None])]
+    cfg2 = {(k, nm): ("%s_%s" % (k, nm.encode().hex()) if nm is not None else k) for k in kinds for nm in (named.get(k) or [None])}
+    reqs2 = ["ONW\tDESCRAST\t" + sexp_str(t) for t in fixed] + pre2 + ["ONW\tDESCRAST\t" + sexp_str(t) for t in fixed] + ["DESCRAST\t" + sexp_str(t) for t in fixed]
+    i2, m2 = both(reqs2)
+    total += len(reqs2)
+    st2 = Stream("describe on a second thread before and after registrations on the first", reqs2, i2, m2, numeric=False)
+    c.add_stream(st2)
+    for t, a0, a1, a2 in zip(fixed, i2[:len(fixed)], i2[len(fixed) + len(pre2):], i2[2 * len(fixed) + len(pre2):]):
+        for which, a, cfg_ in (("before", a0, {}), ("after, other thread", a1, cfg2), ("after, registering thread", a2, cfg2)):
+            exp = "OK\t" + hx(py_describe(t, cfg_))
+            if a != exp:
+                c.violation("implementation-vs-property", "describe() on a second thread does not use exactly the registered descriptor / default (%s)" % which,
+                            {"requests": reqs2, "tree": sexp_str(t), "expected": py_describe(t, cfg_), "implementation": unhx(a.split("\t")[1]) if a.startswith("OK\t") else a})
     c.streams.append({"stream": "DESC/DESCRAST per configuration (fresh process each)", "requests": total, "disagreements": 0, "unmodelled_skipped": 0,
                       "informational_error_kind_drift": 0, "configurations": n_cfg})
     c.sample({"configuration": "binary(+) + list", "request": "DESCRAST " + sexp_str(fixed[1])})
@@ -1085,6 +1146,31 @@ def check_C16(c):
                 c.violation("implementation-vs-property", "a call's result depends on failed parses/evaluations made before it",
                             {"history": "%d × `%s`, then the request" % (len(pre) - 1, bad), "request": r, "input_text": unhx(r.split("\t")[2]) if r.startswith("EXEC") else "",
                              "after_history": a, "alone": bb})
+    # registrations between evaluations: an evaluation depends on the registrations in force, not on what was parsed,
+    # rendered or evaluated under earlier registrations (a memo keyed by name would show here)
+    regprogs = ["10 zz 2 * 3", "1 + 2 zz 3", "2 zz 3 zz 4", "zz2(5)", "yy 3 + 1", "4 ww", "[1 zz 2, yy 1]"]
+    for p1, a1, p2, a2 in [(130, "left", 100, "left"), (100, "left", 130, "left"), (115, "left", 115, "right"), (20, "right", 200, "left")]:
+        reg1 = ["REG\tinfix\t%s\t%d\tcalc\t%s\t%s" % (hx("zz"), p1, a1, sexp_str(["bi", hx("-")])),
+                "REG\tfn\t%s\t0\tcalc\tleft\t%s" % (hx("zz2"), sexp_str(["const", n(1)])),
+                "REG\tprefix\t%s\t0\tcalc\tleft\t%s" % (hx("yy"), sexp_str(["const", n(1)])),
+                "REG\tpostfix\t%s\t0\tcalc\tleft\t%s" % (hx("ww"), sexp_str(["const", n(1)]))]
+        reg2 = ["REG\tinfix\t%s\t%d\tcalc\t%s\t%s" % (hx("zz"), p2, a2, sexp_str(["bi", hx("-")])),
+                "REG\tfn\t%s\t0\tcalc\tleft\t%s" % (hx("zz2"), sexp_str(["arg", "0"])),
+                "REG\tprefix\t%s\t0\tcalc\tleft\t%s" % (hx("yy"), sexp_str(["arg", "0"])),
+                "REG\tpostfix\t%s\t0\tcalc\tleft\t%s" % (hx("ww"), sexp_str(["arg", "0"]))]
+        uses = []
+        for p in regprogs:
+            uses += ["CTX\tc\t()", exec_line("c", p), "EXPR\t" + hx(p), "PARSE\t" + hx(p)]
+        hist = reg1 + uses + reg2 + uses
+        fresh = reg2 + uses
+        ih, mh = both(hist)
+        c.add_stream(Stream("re-registration between evaluations (%d %s → %d %s)" % (p1, a1, p2, a2), hist, ih, mh))
+        ifr = run_impl(fresh)
+        total += len(hist) + len(fresh)
+        for r, a, bb in zip(uses, ih[len(reg1) + len(uses) + len(reg2):], ifr[len(reg2):]):
+            if canon(a) != canon(bb):
+                c.violation("implementation-vs-property", "a result depends on what was parsed or evaluated under an earlier registration",
+                            {"history": hist, "request": r, "after_history": a, "fresh_process_with_the_final_registrations": bb})
     # same AST evaluated repeatedly with equal contexts
     rep = []
     for p in progs_pool:
